@@ -134,7 +134,7 @@ func (fr *Frame) execCall(st *State, cc *ssa.CallCommon, instr ssa.Instruction, 
 
 func (fr *Frame) callFunction(st *State, fn *ssa.Function, args []Val, binds []Val, sig *types.Signature, pos token.Pos) []Val {
 	res := fr.callFunction0(st, fn, args, binds, sig, pos)
-	fr.ghostCallUpdates(st, fn.Name(), args, res, true)
+	fr.ghostCallUpdates(st, fnHookNames(fn), args, res, true)
 	return res
 }
 
@@ -150,7 +150,7 @@ func (fr *Frame) callFunction0(st *State, fn *ssa.Function, args []Val, binds []
 	if fn == root.fn && fn != nil {
 		fr.oblige(st, "termination", "recursive-call-without-variant", False, nil, pos)
 	}
-	fr.callHooks(st, fn.Name(), args, pos)
+	fr.callHooks(st, fnHookNames(fn), args, pos)
 	if fc != nil && !fc.Inline {
 		fc.Used = true
 		return fr.applyContract(st, fc, sig, args, pos, shortKey(key))
@@ -285,7 +285,7 @@ func (fr *Frame) havocCall(st *State, sig *types.Signature, prefix string) []Val
 // execInvoke: interface method call.
 func (fr *Frame) execInvoke(st *State, cc *ssa.CallCommon, args []Val, pos token.Pos) []Val {
 	res := fr.execInvoke0(st, cc, args, pos)
-	fr.ghostCallUpdates(st, cc.Method.Name(), args, res, true)
+	fr.ghostCallUpdates(st, invokeHookNames(cc), args, res, true)
 	return res
 }
 
@@ -302,7 +302,7 @@ func (fr *Frame) execInvoke0(st *State, cc *ssa.CallCommon, args []Val, pos toke
 	nn := Not(Eq(recv.C[0], IntT(0)))
 	fr.oblige(st, "nil-deref", fr.describe(cc.Value)+"."+m.Name(), nn, nil, pos)
 	fr.assume(st, nn)
-	fr.callHooks(st, m.Name(), args, pos)
+	fr.callHooks(st, invokeHookNames(cc), args, pos)
 	if fc := fr.en.CS.Funcs[key]; fc != nil {
 		fc.Used = true
 		return fr.applyContract(st, fc, cc.Signature(), args, pos, shortKey(key))
@@ -854,7 +854,45 @@ func (fr *Frame) hookRoot() *Frame {
 	return f
 }
 
-func (fr *Frame) callHooks(st *State, name string, args []Val, pos token.Pos) {
+// fnHookNames / invokeHookNames: a call is seen by hooks under its bare name and, for methods, under
+// "Recv.Name" as well (the receiver's type name without package), joined by "|".
+func fnHookNames(fn *ssa.Function) string {
+	n := hookName(fn.Name())
+	if fn.Signature != nil && fn.Signature.Recv() != nil {
+		if r := recvTypeName(fn.Signature.Recv().Type()); r != "" {
+			return n + "|" + r + "." + n
+		}
+	}
+	return n
+}
+
+func invokeHookNames(cc *ssa.CallCommon) string {
+	n := cc.Method.Name()
+	if r := recvTypeName(cc.Value.Type()); r != "" {
+		return n + "|" + r + "." + n
+	}
+	return n
+}
+
+func recvTypeName(t types.Type) string {
+	t = types.Unalias(t)
+	if p, ok := t.(*types.Pointer); ok {
+		t = types.Unalias(p.Elem())
+	}
+	if n, ok := t.(*types.Named); ok {
+		return n.Obj().Name()
+	}
+	return ""
+}
+
+func (fr *Frame) callHooks(st *State, names string, args []Val, pos token.Pos) {
+	if strings.Contains(names, "|") {
+		for _, n := range strings.Split(names, "|") {
+			fr.callHooks(st, n, args, pos)
+		}
+		return
+	}
+	name := names
 	fr = fr.hookRoot()
 	if fr == nil {
 		return
@@ -882,7 +920,14 @@ func (fr *Frame) callHooks(st *State, name string, args []Val, pos token.Pos) {
 	fr.ghostCallUpdates(st, name, args, nil, false)
 }
 
-func (fr *Frame) ghostCallUpdates(st *State, name string, args []Val, res []Val, after bool) {
+func (fr *Frame) ghostCallUpdates(st *State, names string, args []Val, res []Val, after bool) {
+	if strings.Contains(names, "|") {
+		for _, n := range strings.Split(names, "|") {
+			fr.ghostCallUpdates(st, n, args, res, after)
+		}
+		return
+	}
+	name := names
 	fr = fr.hookRoot()
 	if fr == nil {
 		return
